@@ -33,6 +33,26 @@ def none_test(expr):
     return None
 
 
+def correlated_edge_ok(e, func, src):
+    """edge_ok for path searches starting at src: branches on a module-level
+    constant (a bare name never assigned in func) are taken the same way as on
+    the branch src itself sits on (infeasible-path pruning for the
+    `if HAVE_X: acquire ... if HAVE_X: release` idiom)."""
+    g = e.cfg(func)
+    facts = {}
+    for t in g.nodes:
+        if t.kind == "test" and isinstance(t.ast, ast.Name) and t.ast.id not in func.locals:
+            for lab in ("T", "F"):
+                if g.on_branch(src, t, lab):
+                    facts[t.ast.id] = lab
+
+    def edge_ok(n, m, label):
+        if n.kind == "test" and isinstance(n.ast, ast.Name) and n.ast.id in facts and label in ("T", "F"):
+            return label == facts[n.ast.id]
+        return True
+    return edge_ok
+
+
 def node_calls(e, func, n, pred):
     """Calls evaluated by CFG node n satisfying pred(func, call)."""
     return [c for c in calls_in(n) if pred(func, c)]
